@@ -24,35 +24,35 @@ structure PartiallyApplied (H : Text → String) (w : World) (m : MFile) (old : 
 
 /-! ### the property theorems -/
 
+theorem partial_len {H : Text → String} {w : World} {m : MFile} {old : List Text} {k : Nat}
+    {r : Revision} (hp : PartiallyApplied H w m old k r) : r.applied ≤ r.partialHashes.length := by
+  rw [hp.hashes, hp.applied]; simp [List.length_take, hp.kle]
+
 /-- **never_panics**: resuming a partially applied file never hits an out-of-range index, whatever
 the file looks like now (fewer statements than were applied included) and whatever fails. -/
 theorem never_panics {H : Text → String} {w : World} {m : MFile} {old : List Text} {k : Nat}
     {r : Revision} (hp : PartiallyApplied H w m old k r) :
     (execute true H w m).2 ≠ .panic := by
-  unfold execute
-  simp only [hp.found]
-  split
-  · simp
-  · have hlen : r.applied ≤ r.partialHashes.length := by
-      rw [hp.hashes, hp.applied]; simp [List.length_take, hp.kle]
-    have hnp := checkLoop_no_panic (sums H m.stmts) r.partialHashes r.applied hlen (r.applied + 1) 0
+  have hload : loadRev w m = r := by unfold loadRev; rw [hp.found]
+  unfold execute; rw [hload]
+  rcases hW : writeRevision w r with ⟨w1, b1⟩
+  cases b1 with
+  | true => rw [executeFrom_fail hW]; simp
+  | false =>
+    rw [executeFrom_ok hW]
     have hk : r.applied > 0 := by rw [hp.applied]; exact hp.kpos
-    simp only [hk, if_true]
-    split
-    · rename_i heq; exact absurd heq hnp
-    · simp [deferred]
-    · rename_i heq
-      have hag := checkLoop_none (r.applied + 1) 0 (by omega) heq
-      have : ¬ r.applied > m.stmts.length := by
+    have hnp := checkLoop_no_panic (sums H m.stmts) r.partialHashes r.applied (partial_len hp) (r.applied + 1) 0
+    rcases hC : checkOf true H m r with _ | (i | u)
+    · rw [afterStart_none hC]
+      have hC' : checkLoop true (sums H m.stmts) r.partialHashes r.applied (r.applied + 1) 0 = none := by
+        unfold checkOf at hC; simpa [hk] using hC
+      have hag := checkLoop_none (r.applied + 1) 0 (by omega) hC'
+      have hle : r.applied ≤ m.stmts.length := by
         have := (hag (r.applied - 1) (by omega) (by omega)).1
         simp at this; omega
-      simp only [this, if_false]
-      have h3 := stmtLoop_res (sums H m.stmts) (m.stmts.drop r.applied) (writeRevision w r).1
-        { r with total := m.stmts.length }
-      rcases h3 with h3 | h3 | h3
-      · simp only [h3]; simp only [deferred]; split <;> simp
-      · simp only [h3]; simp [deferred]
-      · simp only [h3]; simp [deferred]
+      exact (runStmts_res hle).1
+    · rw [afterStart_inl hC]; simp [deferred]
+    · exfalso; apply hnp; unfold checkOf at hC; simpa [hk] using hC
 
 /-- **changed_prefix_refused**: if the first `k` statements of the file are no longer the ones that
 were applied (edited, reordered, removed, or fewer than `k` statements left), the run ends with the
@@ -62,25 +62,25 @@ theorem changed_prefix_refused {H : Text → String} {w : World} {m : MFile} {ol
     {r : Revision} (hp : PartiallyApplied H w m old k r) (hch : m.stmts.take k ≠ old.take k) :
     (∃ i b, (execute true H w m).2 = .historyChanged i b) ∨ (execute true H w m).2 = .writeRev ∨
     Collision H := by
-  unfold execute
-  simp only [hp.found]
-  split
-  · right; left; rfl
-  · have hlen : r.applied ≤ r.partialHashes.length := by
-      rw [hp.hashes, hp.applied]; simp [List.length_take, hp.kle]
-    have hnp := checkLoop_no_panic (sums H m.stmts) r.partialHashes r.applied hlen (r.applied + 1) 0
+  have hload : loadRev w m = r := by unfold loadRev; rw [hp.found]
+  unfold execute; rw [hload]
+  rcases hW : writeRevision w r with ⟨w1, b1⟩
+  cases b1 with
+  | true => rw [executeFrom_fail hW]; right; left; rfl
+  | false =>
+    rw [executeFrom_ok hW]
     have hk : r.applied > 0 := by rw [hp.applied]; exact hp.kpos
-    simp only [hk, if_true]
-    split
-    · rename_i heq; exact absurd heq hnp
-    · left; simp only [deferred]; exact ⟨_, _, rfl⟩
-    · rename_i heq
-      right; right
-      have hag := checkLoop_none (r.applied + 1) 0 (by omega) heq
+    have hnp := checkLoop_no_panic (sums H m.stmts) r.partialHashes r.applied (partial_len hp) (r.applied + 1) 0
+    rcases hC : checkOf true H m r with _ | (i | u)
+    · right; right
+      have hC' : checkLoop true (sums H m.stmts) r.partialHashes r.applied (r.applied + 1) 0 = none := by
+        unfold checkOf at hC; simpa [hk] using hC
+      have hag := checkLoop_none (r.applied + 1) 0 (by omega) hC'
       rw [hp.applied] at hag
+      have hkpos := hp.kpos
       have hkn : k ≤ m.stmts.length := by
-        have := (hag (k - 1) (by omega) (by have := hp.kpos; omega)).1
-        simp at this; have := hp.kpos; omega
+        have := (hag (k - 1) (by omega) (by omega)).1
+        simp at this; omega
       have hall : ∀ j, j < k → H (m.stmts.take (j + 1)).flatten = H (old.take (j + 1)).flatten := by
         intro j hj
         have h2 := (hag j (by omega) hj).2
@@ -89,6 +89,8 @@ theorem changed_prefix_refused {H : Text → String} {w : World} {m : MFile} {ol
       rcases prefix_of_sums hp.kle hkn hall with h | h
       · exact absurd h hch
       · exact h
+    · left; rw [afterStart_inl hC]; simp only [deferred]; exact ⟨_, _, rfl⟩
+    · exfalso; apply hnp; unfold checkOf at hC; simpa [hk] using hC
 
 /-- **refused_is_clean**: a history-changed result means no statement was sent to the database and
 every revision lookup answers exactly as before the run. -/
@@ -97,40 +99,34 @@ theorem refused_is_clean {H : Text → String} {w : World} {m : MFile} {old : Li
     (hres : (execute true H w m).2 = .historyChanged i b) :
     (execute true H w m).1.journal = w.journal ∧ (execute true H w m).1.calls = w.calls ∧
     ∀ v, findRev v (execute true H w m).1.revs = findRev v w.revs := by
-  unfold execute at hres ⊢
-  simp only [hp.found] at hres ⊢
-  split at hres
-  · simp at hres
-  · rename_i hw
-    have hwf : (writeRevision w r).2 = false := by simpa using hw
-    have hj := writeRevision_journal w r
-    have hl := writeRevision_lookup hp.found
-    have hrev1 : findRev m.version (writeRevision w r).1.revs = some r := by rw [hl]; exact hp.found
-    simp only [hwf] at ⊢
+  have hload : loadRev w m = r := by unfold loadRev; rw [hp.found]
+  unfold execute at hres ⊢; rw [hload] at hres ⊢
+  rcases hW : writeRevision w r with ⟨w1, b1⟩
+  have hj := writeRevision_journal w r
+  have hl := writeRevision_lookup hp.found
+  rw [hW] at hj hl; simp only at hj hl
+  cases b1 with
+  | true => rw [executeFrom_fail hW] at hres; simp at hres
+  | false =>
+    rw [executeFrom_ok hW] at hres ⊢
     have hk : r.applied > 0 := by rw [hp.applied]; exact hp.kpos
-    simp only [hk, if_true] at hres ⊢
-    split at hres
-    · simp at hres
-    · rename_i x heq
-      simp only [heq, Bool.false_eq_true, if_false]
-      simp only [deferred]
-      have hj2 := writeRevision_journal (writeRevision w r).1 r
-      have hl2 := writeRevision_lookup hrev1
-      refine ⟨by rw [hj2.1, hj.1], by rw [hj2.2.1, hj.2.1], fun v => by rw [hl2 v, hl v]⟩
+    rcases hC : checkOf true H m r with _ | (i' | u)
     · exfalso
-      split at hres
-      · simp at hres
-      · have h3 := stmtLoop_res (sums H m.stmts) (m.stmts.drop r.applied) (writeRevision w r).1
-          { r with total := m.stmts.length }
-        rcases h3 with h3 | h3 | h3
-        · simp only [h3] at hres
-          exact (deferred_res_cases _ _ .ok (by simp) (by simp)).1 i b hres
-        · simp only [h3] at hres
-          exact (deferred_res_cases _ _ .writeRev (by simp) (by simp)).1 i b hres
-        · simp only [h3] at hres
-          exact (deferred_res_cases _ _ (.stmt false) (by simp) (by simp)).1 i b hres
-
-/-! ### resuming with an edited tail -/
+      rw [afterStart_none hC] at hres
+      have hC' : checkLoop true (sums H m.stmts) r.partialHashes r.applied (r.applied + 1) 0 = none := by
+        unfold checkOf at hC; simpa [hk] using hC
+      have hag := checkLoop_none (r.applied + 1) 0 (by omega) hC'
+      have hle : r.applied ≤ m.stmts.length := by
+        have := (hag (r.applied - 1) (by omega) (by omega)).1
+        simp at this; omega
+      exact (runStmts_res hle).2 i b hres
+    · rw [afterStart_inl hC]
+      simp only [deferred]
+      have hrev1 : findRev m.version w1.revs = some r := by rw [hl]; exact hp.found
+      have hj2 := writeRevision_journal w1 r
+      have hl2 := writeRevision_lookup hrev1
+      exact ⟨by rw [hj2.1, hj.1], by rw [hj2.2.1, hj.2.1], fun v => by rw [hl2 v, hl v]⟩
+    · rw [afterStart_inr hC] at hres; simp at hres
 
 /-- **tail_edit_resumes**: if the applied statements are unchanged (only the not-yet-applied tail
 was edited, in any way, to any length), a run without faults executes exactly the new tail, in
@@ -157,24 +153,30 @@ theorem tail_edit_resumes {H : Text → String} {w : World} {m : MFile} {old : L
       have : min (j + 1) k = j + 1 := by omega
       rwa [this] at h1
     rw [this]
-  have hcl := checkLoop_agree hagree (r.applied + 1) 0
   have hk : r.applied > 0 := by rw [hp.applied]; exact hp.kpos
+  have hC : checkOf true H m r = none := by
+    unfold checkOf; simp only [hk, if_true]; exact checkLoop_agree hagree (r.applied + 1) 0
   have hle : ¬ r.applied > m.stmts.length := by rw [hp.applied]; omega
-  unfold execute
-  simp only [hp.found, writeRevision_nofault w r hnf, Bool.false_eq_true, if_false, hk, if_true, hcl, hle]
+  have hload : loadRev w m = r := by unfold loadRev; rw [hp.found]
+  unfold execute; rw [hload, executeFrom_ok (writeRevision_nofault w r hnf), afterStart_none hC]
+  unfold runStmts
+  simp only [hle, if_false, if_true]
   have hs := stmtLoop_nofault (sums H m.stmts) (m.stmts.drop r.applied)
     { w with tick := w.tick + 1, revs := upsert r w.revs } { r with total := m.stmts.length } (by simpa using hnf)
+  rcases hL : stmtLoop (sums H m.stmts) (m.stmts.drop r.applied)
+    { w with tick := w.tick + 1, revs := upsert r w.revs } { r with total := m.stmts.length } with ⟨w2, r2, res2⟩
+  rw [hL] at hs
   obtain ⟨h1, h2, h3, h4, h5, h6, h7⟩ := hs
-  simp only [h1, deferred]
+  simp only at h1 h2 h3 h4 h5 h6 h7
+  subst h1
+  simp only [deferred]
   rw [writeRevision_nofault _ _ h4]
   simp only [Bool.false_eq_true, if_false]
   refine ⟨trivial, ?_, ?_, ?_⟩
   · rw [h2, hp.applied]
   · rw [h3, hp.applied]
   · have hv := findRev_version hp.found
-    refine ⟨{ (stmtLoop (sums H m.stmts) (m.stmts.drop r.applied)
-        { w with tick := w.tick + 1, revs := upsert r w.revs }
-        { r with total := m.stmts.length }).2.1 with partialHashes := [] }, ?_, ?_, ?_, rfl⟩
+    refine ⟨{ r2 with partialHashes := [] }, ?_, ?_, ?_, rfl⟩
     · rw [findRev_upsert, if_pos (by simp only [h7]; exact hv)]
     · simp only [h5]; simp; omega
     · simp only [h6]
